@@ -24,7 +24,7 @@ UN = ["overflowing_neg", "checked_neg", "wrapping_neg"]
 
 
 def corpus():
-    out = []
+    out = ["wrapping_add 7 L:5 L:3", "op_add 7 Z:0 L:5 L:3"]
     # boundary corpus: the carry must cross every limb; MAX+1; a=b; b=0
     for bits in (0, 1, 2, 63, 64, 65, 127, 128, 129, 250, 256):
         m = 1 << bits
